@@ -36,8 +36,10 @@ CASE_TIMEOUT = 900
 
 
 def plan(tier, seed):
-    n = 40 if tier == "quick" else 250
-    return [{"seed": seed, "i": i, "tier": tier} for i in range(n)]
+    n = 32 if tier == "quick" else 250
+    specs = [{"seed": seed, "i": i, "tier": tier} for i in range(n)]
+    specs += [{"seed": seed, "i": i, "tier": tier, "backlog": True} for i in range(2 if tier == "quick" else 8)]
+    return specs
 
 
 def run_once(plan_, nprod, nmsg, cycles, concurrent_stop, failmask, second_writer=False):
@@ -180,10 +182,40 @@ def judge(tape, idents, nprod, nmsg, cycles, failmask, problems):
     return len(writes)
 
 
+def run_backlog(spec, res):
+    """'so logging does not block on slow output': with the writer thread starved (lowest priority, i.e. an arbitrarily slow
+    destination), a producer must be able to hand over any number of messages without ever having to wait for it."""
+    rng = random.Random("%s:C19:backlog:%d" % (spec["seed"], spec["i"]))
+    nmsg = rng.choice([1100, 1500, 2300])
+    names = ["P0", "S", "dyn1", "dyn2"]
+    st, tape, idents, problems = run_once({"order": names, "changes": []}, 1, nmsg, 1, False, set())
+    res["evals"] += 1
+    res["counters"]["backlog_runs"] = res["counters"].get("backlog_runs", 0) + 1
+    res["counters"]["backlog_messages"] = res["counters"].get("backlog_messages", 0) + nmsg
+    if st["deadlock"]:
+        problems.append("writer threads deadlocked: %s" % st["deadlock"])
+    elif st["aborted"]:
+        res["inconclusive"] = "backlog schedule abandoned: %s" % st["aborted"]
+        return
+    else:
+        waits = [w for t, w in st["blocked"] if t == "P0" and w != "wait"]
+        if waits:
+            problems.append("offering a message made the caller wait (%s) while the writer thread was not running: with a backlog of up to %d messages "
+                            "logging blocks on slow output" % (waits[0], nmsg))
+        judge(tape, idents, 1, nmsg, 1, set(), problems)
+    res["nontrivial"].append(h(["backlog", nmsg]))
+    res["nontrivial"].append(h(["backlog-run", spec["i"]]))
+    if problems:
+        res["violations"].append({"msg": problems[0], "mech": None, "detail": {"part": "backlog", "messages": nmsg, "problems": problems[:4]}})
+
+
 def run_case(spec):
     res = {"evals": 0, "nontrivial": [], "counters": {}, "violations": [], "sample": None, "sets": {"interleavings": [], "preemption_lines": []}}
     rng = random.Random("%s:C19:%d" % (spec["seed"], spec["i"]))
     sched.instrument([logwriter])
+    if spec.get("backlog"):
+        run_backlog(spec, res)
+        return res
     nprod = rng.choice([1, 1, 2, 3])
     nmsg = rng.choice([1, 2, 3]) if nprod > 1 else rng.choice([1, 2, 4, 8])
     cycles = rng.choice([1, 1, 1, 2, 3])
